@@ -9,7 +9,7 @@ metric).  Scores are compared, never projections.
 import numpy as np
 
 from sim import workload
-from sim.core import EndRun, close
+from sim.core import EndRun, Violation, close
 from sim.models.pcacd import Model
 
 PROP = "C11"
@@ -70,10 +70,32 @@ def gen(rng, scenario, tier):
 
 
 def run(case, ctx):
+    # online_scaling handed over as numpy.bool_ / 0 / 1 (one run in six): the documented type is bool, and the shipped code
+    # reads every non-`True` value as "off".  Either reading of a truthy non-bool is accepted - as long as the detector follows
+    # ONE of them throughout the run (scaling on, or raw data projected), which is what C11 pins down
+    sc = case["cfg"]["online_scaling"]
+    how = None if case.get("retype") is None else ("np.bool_", "int")[case["retype"] % 2]
+    if how is None:
+        return _run(case, ctx, sc, sc)
+    given = np.bool_(sc) if how == "np.bool_" else int(sc)
+    ctx.fault("online_scaling_as_" + how)
+    if not sc:
+        return _run(case, ctx, given, False)
+    try:
+        return _run(case, ctx, given, True)
+    except Violation as v_on:
+        try:
+            _run(case, ctx, given, False)
+        except Violation:
+            raise v_on
+        ctx.note("truthy_non_bool_online_scaling_read_as_off")
+
+
+def _run(case, ctx, scaling_given, scaling_model):
     from menelaus.data_drift import PCACD
 
-    cfg = case["cfg"]
-    det = ctx.call("C11:ctor", PCACD, **cfg)
+    cfg = dict(case["cfg"], online_scaling=scaling_model)
+    det = ctx.call("C11:ctor", PCACD, **dict(cfg, online_scaling=scaling_given))
     m = Model(**cfg)
     drifts = rebuilt = 0
     for t, row in enumerate(case["events"]):
